@@ -89,7 +89,13 @@ def cases(tier, seed):
         "negative": ["chr1:-5-10", "chr1:-5--1", "c:-1-", "chr1:5--10"],
         "non_numeric": ["chr1:abc-10", "chr1:10-xyz", "chr1:ten-twenty", "c:!-5", "chr1:1e3-2e3", "chr1:-"],
         "reversed": ["chr1:10-5", "chr1:2k-1k", "chr1:1M-999,999", "c:1,000-999"],
-        "unknown_unit": ["chr1:10x-20x", "chr1:1T-2T", "chr1:5bp-6bp", "chr1:1kk-2kk", "chr1:100b-200b", "chr1:1kbp-2kbp", "c:3q-"],
+        "unknown_unit": ["chr1:10x-20x", "chr1:1T-2T", "chr1:5bp-6bp", "chr1:1kk-2kk", "chr1:100b-200b", "chr1:1kbp-2kbp", "c:3q-",
+                         # the unknown unit on ONE coordinate only, and units that merely START with a known one
+                         "chr1:1kb-2kbp", "chr1:0-2Mbp", "chr1:1-2kbs", "c:1-5kbx", "chr1:1kbp-2", "chr1:1Mbp-", "chr1:1-2Gbps",
+                         "chr1:1k-2kilo", "chr1:1-2mbp", "chr1:0-1kB2"],
+        # text after the end coordinate / a second colon: the string denotes nothing
+        "trailing": ["chr1:1-2 3", "chr1:1-2-3", "chr1:1-2:5", "chr1:1-2k 7M", "chr1:1-2;drop", "chr1:5-6-", "c:1-2-", "chr1:1-2 chr2",
+                     "chr1:1-2:", "chr1::1-2"],
     }
     for kind, texts in bad.items():
         for t in texts:
